@@ -151,4 +151,6 @@ class WeightedSum(Component):
             self._out_data = result
             self._last_update = time
 
-        return self._out_data
+        # hand out a copy: a repeated request for the same time must not
+        # deliver an array that shares memory with the previous one
+        return None if self._out_data is None else self._out_data.copy()
